@@ -35,7 +35,7 @@ Queries == {"eq", "recheck", "eval", "count", "wmc", "uwmc", "semhash", "mmap", 
 Init ==
   /\ l = 2
   /\ nvars = 0 /\ ord = << >> /\ node = << >>
-  /\ root = [s \in Slots |-> 0] /\ den = [s \in Slots |-> TrueFn] /\ loose = [s \in Slots |-> FALSE]
+  /\ root = [s \in Slots |-> 0] /\ den = [s \in Slots |-> TrueFn] /\ loose = [s \in Slots |-> -1]
   /\ canon = << >> /\ contents = {} /\ hashes = << >>
 
 Step ==
